@@ -69,6 +69,10 @@ fn replay(args: &[String]) -> i32 {
     let vec_path = arg(args, "--vectors").expect("--vectors");
     let out_path = arg(args, "--out").expect("--out");
     let tables = Tables::load(arg(args, "--tables").expect("--tables"));
+    if let Err(e) = paths::api_check(&tables) {
+        eprintln!("api-check: {e}");
+        return 2;
+    }
     let groups: Vec<String> = arg(args, "--groups").unwrap_or("G1,G2").split(',').map(|s| s.to_string()).collect();
     let profiles: Vec<usize> = arg(args, "--profiles").unwrap_or("5").split(',').map(|s| s.parse().unwrap()).collect();
     let seed: u64 = arg(args, "--seed").unwrap_or("0").parse().unwrap();
